@@ -1,7 +1,7 @@
 #!/usr/bin/env python3
 """(re)build /verif/seeded/<property>/<k>/ from the scratch seed directories and the validation / detection results.
 usage: tools/mkseeded.py  -- reads /tmp/seeds (round 1, made against d14b75d), /tmp/seeds_ported (hand-ported to HEAD where a fix:
-commit rewrote the same lines), /tmp/wt2/<id>/_seed/1 (round 2, made against HEAD), /tmp/seedcheck/*.json, /tmp/matrix_final.json"""
+commit rewrote the same lines), /tmp/wt2/<id>/_seed/1 (round 2) and /tmp/wt3/<id>/_seed/1 (round 3), made against HEAD, /tmp/seedcheck/*.json, /tmp/matrix_final.json"""
 import glob
 import json
 import os
@@ -49,6 +49,9 @@ for sd in sorted(glob.glob("/tmp/seeds/C*/[12]")):
 for sd in sorted(glob.glob("/tmp/wt2/C*/_seed/1")):
     pid = sd.split("/")[-3]
     entries.append((pid, "3", sd, f"round 2 (sub-agent, made against {HEAD})"))
+for sd in sorted(glob.glob("/tmp/wt3/C*/_seed/1")):
+    pid = sd.split("/")[-3]
+    entries.append((pid, "4", sd, f"round 3 (sub-agent, made against {HEAD}, told which ideas were already taken)"))
 for pid, k, sd, origin in entries:
     dst = os.path.join(OUT, pid, k)
     os.makedirs(dst, exist_ok=True)
